@@ -59,5 +59,3 @@ NOT_APPLICABLE = [
     {'property_id': 'C12', 'reason': 'exact binomial coverage is a numerical summation over all outcomes k on a grid of (n,p,level) up to thousands; there is nothing for a solver to search and pmf sums of that size are not encodable bit-precisely or in NRA (DESIGN.md §4)'},
 ]
 
-CHECKS = [c for c in CHECKS if c['id'] != 'C08']
-NOT_APPLICABLE.append({'property_id': 'C08', 'reason': 'check under construction in this revision (reduced-width FP lemmas; see DESIGN.md C08)'})
